@@ -6,11 +6,11 @@ from check import canon_exc, hx
 from rpcfmt import jo
 
 MANIFEST = {
-    "text": "Lean theorems over an arbitrary provider script and server script (induction, any number of legs): tokens_sent (each non-empty provider token is sent exactly once, in order, the first in a bind and the rest in alter_context PDUs), tokens_fed (the server's tokens are fed back in order, an absent token as b\"\"), stops_when_complete, rejections_surface (bind_nak / fault / unexpected PDU type / closed connection end the handshake with an error), sign_header_iff (header signing stays on exactly while every ack advertised it), request_only_on_accepted (_process_bind_result); SyncRpcClient.bind / AsyncRpcClient.bind and _process_bind_result are tied to the model by correspondence with a scripted AuthenticationProvider (1..4 legs, empty final token) and every scripted server behaviour to depth 3 (quick) / 4 (thorough)",
+    "text": "Lean theorems over an arbitrary provider script and server script (induction, any number of legs): tokens_sent (each non-empty provider token is sent exactly once, in order, the first in a bind and the rest in alter_context PDUs), tokens_fed (the server's tokens are fed back in order, an absent token as b\"\"), stops_when_complete, rejections_surface (bind_nak / fault / unexpected PDU type / closed connection end the handshake with an error), sign_header_iff (header signing stays on exactly while every ack advertised it), request_only_on_accepted (_process_bind_result); SyncRpcClient.bind / AsyncRpcClient.bind and _process_bind_result are tied to the model by correspondence with a scripted AuthenticationProvider (1..4 legs, empty final token) and every scripted server behaviour to depth 3 (quick) / 4 (thorough); tokens_fed / bind_feeds_ack_token / ack_token: each leg is stepped with exactly the auth value of the ack received last (the bind_ack's for the first alter_context, then each alter_context_resp's), none skipped, none repeated",
     "note": "Trusted: Lean kernel; model (differential tie); a result vector shorter than the offered context list surfaces as IndexError (an error, as the property requires, though not a deliberate type)",
     "technique": "Lean 4 proof (induction over the provider script) + exhaustive small-scope script correspondence",
 }
-THEOREMS = ["DpapiNg.C15.tokens_sent", "DpapiNg.C15.stops_when_complete", "DpapiNg.C15.rejections_surface", "DpapiNg.C15.unexpected_is_error", "DpapiNg.C15.sign_header_iff", "DpapiNg.C15.bind_first_token"]
+THEOREMS = ["DpapiNg.C15.tokens_sent", "DpapiNg.C15.stops_when_complete", "DpapiNg.C15.rejections_surface", "DpapiNg.C15.unexpected_is_error", "DpapiNg.C15.sign_header_iff", "DpapiNg.C15.bind_first_token", "DpapiNg.C15.ack_token", "DpapiNg.C15.tokens_fed", "DpapiNg.C15.bind_feeds_ack_token"]
 RULE = ("provider scripts with 1..4 legs (complete flag after the last or an earlier leg, empty final token) × server scripts to depth 3 (quick) / 4 (thorough) over "
         "{bind_ack / alter_context_resp with result vectors [accept,accept] [accept,reject] [reject,accept] [negotiate_ack] [] and header-sign flag on/off and token / no token, "
         "bind_nak, fault, response, EOF}; sync and async; distinct by op line")
